@@ -36,6 +36,40 @@ CLAIMED = {
             "Decides the category order, the tag->category table, the key type compared per category ((arity,name) for compounds, textual atoms), the Ordering->TermPair->Option<Ordering>->atom translations and the outcome sets of the 24 term-comparison arms. The argument traversal is not decided."),
     "C14": ("effect-summary rule over typed HIR (resolved std sort callee)",
             "Decides the builtins clause only: sort/2 sorts by the standard-order comparator then removes compare-equal neighbours; keysort/2 uses a stable std sort whose comparator reads only the keys. The Prolog collection libraries are not decided."),
+    "C16": ("configuration / fallback-shape / radix-table rules over typed HIR + shared-reader reachability on the call graph",
+            "Decides that the reader's float parser is never configured lossy and is the only float parser of the reader, that the machine-word integer parse falls back to the big-integer parse and is range-checked, that the radix prefixes are wired to the right radix and digit class, and that number_chars/number_codes read through the same lexer and print through the same float formatter as read_term/write. Digit-level correctness of lexical/dashu/ryu is trusted."),
+    "C17": ("panic budget (RF5) over MIR call/assert facts of the reader scope against a triaged table",
+            "Decides the no-panic clause only: the multiset of potentially panicking constructs (unwrap/expect, panic!/assert!, Index/slice ops, integer division, overflowing multiplications) in the reader bodies reachable from the reader entry points does not exceed the triaged table. Termination and resynchronisation after a syntax error are not decided."),
+    "C18": ("panic budget of the decoder scope, guarded-range rule, enum-dispatch sibling agreement of Stream's input methods",
+            "Decides that chunk boundaries and truncated input cannot reach a new panicking construct in CharReader or a CharRead/Read impl, that every constant-bounded range used to drain/slice the decode buffer is inside a branch establishing the bound, and that peek/read/put_back/consume/read forward for the same stream kinds (each feature configuration in the thorough tier)."),
+    "C19": ("enum-dispatch sibling agreement over `Stream`, who-may-consume rule for peek builtins, inverse-table agreement",
+            "Decides the interface clauses: every stream kind is handled consistently across the input, output, line-count and past-end sibling groups; peek_char/peek_code/peek_byte call no consuming stream method; the eof_action atom tables are mutually inverse. Payload round-trips and position values are not decided."),
+    "C20": ("exhaustive-sibling rule over every HeapCellValueTag match; sibling agreement inside compare_pstr_slices",
+            "Decides the representation clause: every tag dispatch that names the list cell also names the packed-string cell (and conversely) or is a reasoned exception, and every tail index returned by the string-segment comparison is computed from the same slice's scanned tail and cell offset. Offset arithmetic elsewhere is not decided."),
+    "C21": ("table agreement between the build-script crate and atom_table.rs; who-may-fabricate atoms; lookup-dominates-allocation (MIR)",
+            "Decides that the inline/interned split, its length constant and its bit encoding are the same function of the text at build time and at run time, that raw atom values are fabricated only at listed decoders, that interning looks the text up before allocating, and that table hash/equality and atom order go through the text."),
+    "C28": ("must-pass-through and dominance over MIR CFGs of QueryState::next / Machine::run_query; stub-frame effect table",
+            "Decides the acquire/release structure of an embedded query: the ball is copied with alignment and cleared on every reporting path, the stub choice point is fully initialised (heap mark = current top) and pushed before the goal starts, the success continuation is set, the end test compares with this query's stub, and Drop releases relative to that stub. Answer contents are not decided."),
+    "C30": ("type-resolved escape-hatch rule over every Result<_, AllocError> expression in the crate",
+            "Decides error discipline over every allocation site: no value of type Result<_, AllocError> is unwrapped, expect'ed, optioned, tested-and-dropped or discarded outside the reasoned exception table; resource errors are thrown from the pre-allocated term in one place; a failed growth leaves the capacity unchanged."),
+    "C31": ("loop-structure rule over typed HIR of both dispatch loops; MIR order of swap/throw/backtrack; accessor table of the INTERRUPT static",
+            "Decides the polling structure: both instruction loops poll on every outer cycle after an inner loop bounded by a wrapping u8 counter, no labelled continue skips the poll, the poll clears the flag atomically and raises through throw+backtrack, and only the signal handler sets the flag. Timing is not decided."),
+    "C32": ("dominance rules over the MIR CFG of AtomTable::build_with; who-may-call for atom-table mutators",
+            "Decides the lock discipline: every mutation of the shared atom table is dominated by the update lock and by the re-validation of both snapshots (allocation epoch and atom-list epoch), a detected race retries without mutating, the text is written before the set is published, the lock is released after the last publication, the inline fast path is lock-free, and nobody else mutates the table. arcu's interleaving semantics are trusted."),
+    "C33": ("guarded raw write by linear arithmetic with case splits over typed HIR; section construction and reserve/size-function pairing",
+            "Decides, symbolically for every fill level, that the bytes written by Heap::append/copy_pstr_within/copy_slice_to_end are covered by the dominating free_space() guard and equal the advance of the heap top; push_cell's single-cell shape; grow commits capacity only on success; sections come only from reserve; each section writer reserves exactly through its paired size function. Equality of size function and bytes written is not decided."),
+    "C34": ("call-graph SCC table and recursive-type table (RF8)",
+            "Decides that no native recursion proportional to term size exists outside the triaged tables: every call-graph cycle and every recursive data type (whose drop/clone glue recurses) is listed with a bound or as a finding. parser::ast::Term's glue recursion is a recorded known finding (deep/long terms overflow the native stack)."),
+    "C37": ("name/implementation agreement per atom-keyed arm; Prolog fact list vs Rust arms; base64 option table",
+            "Decides the algorithm-selection clause: each algorithm atom constructs the hasher/constant it names, crypto.pl's hash_algorithm/1 facts equal the implemented set, and chars_base64 options select the matching engine (or a hand-built configuration sets decode padding together with encode padding). Byte-level results are the libraries'."),
+    "C43": ("Prolog clause tables (plread) vs Rust decoder/encoder; validators-before-'$op'; priority-0 filter in every table reader",
+            "Decides the validation tables: specifier atoms agree across Prolog, Rust decoder and encoder; priority bounds are 0..1200; ',' [] {} are refused and '|' restricted in both the atom and the list form; every '$op' is preceded by the validators; priority 0 removes and every reader of the table skips priority-0 entries; current_op's direct lookup needs all arguments bound. Histories are not decided."),
+    "C44": ("clause-table agreement (plread) between current_prolog_flag/2, set_prolog_flag/2 and the Rust getters/setters",
+            "Decides that each flag is produced the same way when given and when enumerated (binding, not comparing), that read-only flags accept exactly their own value, that Prolog atoms, Rust setter atoms and getter atoms coincide and are mutually inverse, that bad values end in flag_value domain errors, that both predicates end with the flag/type error clauses, and that the occurs_check setters install objects reporting the set value and head unification honours the flag."),
+    "C50": ("sibling agreement of in-memory and stream read/write paths over typed HIR and the call graph",
+            "Decides the shared-core clause: write_term and write_term_to_chars take their printer from the same constructor with the same operator table; stream and from-chars readers use the same parser entry, operator source, heap writer and option writers on success and on end of input. Equality of results beyond sharing is not decided."),
+    "C55": ("printer/lexer character-class agreement from macro-expansion origins; special-case tables",
+            "Decides that the printer's unquoted-atom decision uses the lexer's classes for first character and continuation, that the only special graphic starts are '/*' and a lone '.', that [] and {} are the only bracket atoms, and that the solo characters needing quotes are the oracle list. Spacing and operator printing are not decided."),
 }
 
 NA = {
